@@ -35,6 +35,13 @@ pub fn handle(line: &str) -> String {
                 }
                 Ok(ssa) => {
                     out["ssa"] = crate::dump::cfg(&ssa);
+                    // the variables of the CFG that the lookup accessors do not find (C14: every version is covered by a declaration)
+                    let missing: Vec<String> = ssa
+                        .variables()
+                        .filter(|v| ssa.get_declaration(v).is_none() || ssa.get_type(v).is_none())
+                        .map(|v| format!("{v:?}"))
+                        .collect();
+                    out["undeclared_by_lookup"] = json!(missing);
                 }
             }
         }
